@@ -441,22 +441,47 @@ board_proof! {
     }
 }
 
-// O-C15.try_play.end-to-end (thorough): no stubs — the real is_legal (loops unwound) and play_unchecked
-// (slider loop cut, invariant not needed here): try_play succeeds exactly on the moves that are legal by
-// the rules, and a rejected move leaves every field unchanged
+// O-C15.try_play.end-to-end (thorough): no stubs — the real is_legal and play_unchecked.
+// (a) non-pawn origins (is_legal is loop-free there; the slider loop of play_unchecked is cut, its
+//     invariant is not needed): Ok exactly for the moves legal by the rules, board unchanged on Err
+// (b) illegal pawn moves (is_legal runs the real pawn loops, completely unwound): Err, board unchanged
+fn same_board_fields(a: &Board, b: &Board) -> bool {
+    let (p, q) = (pos_of(a), pos_of(b));
+    p.pieces[0] == q.pieces[0] && p.pieces[1] == q.pieces[1] && p.pieces[2] == q.pieces[2]
+        && p.pieces[3] == q.pieces[3] && p.pieces[4] == q.pieces[4] && p.pieces[5] == q.pieces[5]
+        && p.colors[0] == q.colors[0] && p.colors[1] == q.colors[1] && p.stm == q.stm
+        && p.castle[0][0] == q.castle[0][0] && p.castle[0][1] == q.castle[0][1]
+        && p.castle[1][0] == q.castle[1][0] && p.castle[1][1] == q.castle[1][1]
+        && p.ep == q.ep && p.halfmove == q.halfmove && p.fullmove == q.fullmove
+        && a.checkers.0 == b.checkers.0 && a.pinned.0 == b.pinned.0
+        && hash_of_z(&a.inner) == hash_of_z(&b.inner)
+}
 board_proof! {
-    #[kani::unwind(9)]
-    fn c15_try_play_end_to_end() {
+    fn c15_try_play_end_to_end_pieces() {
         let p = any_inv_pos();
         let b0 = mk_board(&p);
         let m = any_move();
+        kani::assume(p.piece_at(mv_of(m).from) != sp::P as u8);
         cut_on();
         set_inv_off();
         let mut b = b0.clone();
         let r = b.try_play(m);
         assert!(r.is_ok() == sp::spec_legal(&p, mv_of(m)));
         if r.is_err() {
-            assert!(same_board(&b, &b0));
+            assert!(same_board_fields(&b, &b0));
         }
+    }
+}
+board_proof! {
+    #[kani::unwind(9)]
+    fn c15_try_play_end_to_end_pawn_illegal() {
+        let p = any_inv_pos();
+        let b0 = mk_board(&p);
+        let m = any_move();
+        kani::assume(p.piece_at(mv_of(m).from) == sp::P as u8 && !sp::spec_legal(&p, mv_of(m)));
+        let mut b = b0.clone();
+        let r = b.try_play(m);
+        assert!(r.is_err());
+        assert!(same_board_fields(&b, &b0));
     }
 }
